@@ -24,16 +24,25 @@ RULE = ("one case = one generated Modelica model (connector classes with 1-3 pot
         "leaf components with linear equations, a top model — in the hierarchical streams also mid-level models with "
         "their own connectors — joined by connect clauses drawn from chains, stars, cycles, duplicate/reversed edges, "
         "late merges of separately built sets, bridges, random pairs, self connections; names from pools with string-prefix "
-        "related members; connector classes optionally in packages, two of them sharing the simple name); non-trivial = at least two "
+        "related members; connector classes optionally in packages, two of them sharing the simple name; stream `array`: leaf components "
+        "declared as arrays of components with one, two or three dimensions, connect clauses over their elements with literal subscripts); non-trivial = at least two "
         "connect clauses and at least one connection set with three or more members or one merge of two existing sets; "
         "distinct = distinct model description")
 TRUSTED = ["the heap reading of `flow_connections` in Model/Connect.lean (`Heap.step`: object identities, in-place `update`, "
            "fresh object for an unknown key, identity de-duplication) is what the driver runs; its equality with the value reading "
            "the other theorems use is proved (`heap_refines_value`, `heap_pass_eq_value_pass`), not assumed",
-           "the linear canonicaliser of flat equations in harness/props/c09.py"]
+           "the linear canonicaliser of flat equations in harness/props/c09.py (incl. the element-wise reading of array symbols)",
+           "the serialisation of a flow key (flat name, literal subscripts, face) of the code to the model's key (string, face): the "
+           "element `r[1,2].p.i` is sent as that string, which is injective on (name, subscripts)"]
 ASSUMPTIONS = ["hierarchical models (streams hier, hier-open) go beyond the graph domain the property names; their reference is "
                "the face-wise rule of the Modelica specification 9.2",
-               "connector variables are scalar Real (arrays of connectors / array variables are out of scope: the code marks them TODO)",
+               "connector variables are scalar Real and connectors are scalar components (arrays of connectors / array variables "
+               "inside connectors are out of scope: the code marks them TODO); arrays of COMPONENTS holding connectors are in scope "
+               "(streams array, array-open), subscripts in connect clauses are integer literals",
+               "stream array: every connector of an array of components is connected in all elements or in none; partly connected "
+               "arrays are the stream array-open (open finding C09-F2: unconnected elements get no `flow = 0`), checked by the direct "
+               "oracle only",
+               "an unsubscripted flat equation over array symbols is read as the element-wise equations, scalars and constants broadcast",
                "both ends of a connect clause have the same connector class; references are `c` or `comp.c`",
                "no expandable/stream/overdetermined connectors, no inner/outer components, no conditional components",
                "a top-level connector that occurs in a connect clause is left free (the property text: only flows in no connection are zero)"]
